@@ -25,7 +25,9 @@ prop = Prop(
 prop.engine = "detloop"
 
 ALL_OPS = ("map", "zip", "scatter", "gather", "cond", "loop", "exec", "cross")
-case_strategy = st.fixed_dictionaries({"prog": progs.program_strategy(ops=ALL_OPS), "schedule": progs.schedule_strategy})
+case_strategy = st.fixed_dictionaries(
+    {"prog": progs.program_strategy(ops=ALL_OPS), "schedule": progs.schedule_strategy, "durations": progs.durations_strategy}
+)
 
 
 def _is_prefix(p: str, t: str) -> bool:
@@ -161,7 +163,7 @@ async def check(case, rec):
     from streamflow.workflow.token import IterationTerminationToken, TerminationToken
     from vf.engine.runprog import classify, run_program
 
-    r = await run_program(case["prog"], case["schedule"], read_tables=True)
+    r = await run_program(case["prog"], case["schedule"], read_tables=True, durations=case.get("durations"))
     if r.outcome != "returned":
         raise Violation("C07:run-failed", f"{r.exception!r}; blocks={r.blocks}")
     wf = r.wf
